@@ -645,3 +645,45 @@ CHECKS["C19"] = dict(
 )
 ENGINES.append(dict(name="sched-lab", path="checks/c19_threads.cpp, harness/vsched.h", serves_properties=["C19"],
                     kind_free_text="preemption-bounded cooperative scheduler over harness-owned yield points + free-running TSan pass"))
+
+
+# ----------------------------------------------------------------------------------------------- later additions
+# Oracles and alphabets added while strengthening the checks against independently authored changes (DESIGN.md 13.5b).
+def _more(prop, text, bounds_quick=None, bounds_thorough=None):
+    CHECKS[prop]["level_text"] += "; " + text
+    if bounds_quick:
+        CHECKS[prop]["bounds"]["quick"] = bounds_quick
+    if bounds_thorough:
+        CHECKS[prop]["bounds"]["thorough"] = bounds_thorough
+
+
+_more("C01", "every ordered pair of consecutive values is also read into ONE reused destination object; the fd rigs are move-constructed "
+             "into place, transfer at most 3 bytes per system call, and any read/write/close after close of a descriptor is a violation; "
+             "gcc explorers are built with -O2 (libnop's own optimisation level)")
+_more("C02", "truncations and field-value mutations are additionally read into two fresh objects after the stack was filled with two "
+             "different patterns: the inspected destinations must agree (no never-initialised data left by a failed read)")
+_more("C06", "the capacity sweep is repeated on a writer that already holds one copy of the value (remaining capacity c in a buffer "
+             "of len + c bytes)")
+_more("C08", "reader rigs: PedanticBufferReader, BufferReader, StreamReader, BoundedReader<PedanticBufferReader>; flat and nested context")
+_more("C09", "", "90 types, 8100 ordered pairs, <= 60 values per A", "same")
+_more("C10", "on the read side the failing block transfer first fills its destination range with 0xaa (a failed transfer may have "
+             "stored anything); the status returned must still be the reader's")
+_more("C11", "after every (history, operation) the destination object is destroyed and the number of blocks obtained from operator new "
+             "and not returned must be what it was before the object was created (nothing leaked)")
+_more("C12", "converting assignment SrcB -> TrB (a non-last alternative), plain and with the construction armed to throw")
+_more("C13", "throw:* operations (assignment from a value / another object / Optional<int> with the next element construction armed "
+             "to throw, before the element touches its storage); table Entry operands in the relational-operator matrix")
+_more("C14", "calls with integral arguments whose width/signedness differs from the declared parameters, an lvalue argument for a "
+             "by-value parameter (must stay with the caller), U64-encoded selectors 2^32 + bound selector for the 32-bit interface")
+_more("C15", "tables build: nested tables whose padded (handle) entry is followed by further inner entries")
+_more("C17", "fd answer enumeration: EINTR, EIO, 0 bytes, short transfers of 1 and n-1 bytes at every system call; the expectation "
+             "depends only on whether the scripted answer was consumed; descriptor misuse (use or close after close) is a violation")
+_more("C18", "names with embedded NUL bytes", "all strings <= 2 bytes x 5 keys; lengths 0..300 x 6 patterns x 133 keys; 17 names; 6 tables; 2 interfaces")
+_more("C19", "three further bodies: `wide` (one value through every kind of encoding), `libio` (the library's own Stream/Buffer/Pedantic/"
+             "Bounded readers and writers; stream-buffer virtual calls are scheduling points; per-thread padding bytes) and `tlsSlots` "
+             "(every slot-tag form of the library; per-(T,Slot) independence); expectations the bodies state themselves are checked in "
+             "the solo runs too",
+      "43 thread sets (all pairs of the eight small bodies, wide/libio/tlsSlots with themselves and with the bodies they share code with, "
+      "one 3-thread set), <= 2 preemptions, all schedules",
+      "the same sets with <= 3 preemptions for the small bodies (2 for 3-thread sets and the large bodies); ASan build of the quick bound")
+CHECKS["C20"]["bounds"]["quick"] = CHECKS["C20"]["bounds"]["quick"].replace("g++ -O1 build", "g++ -O2 build")
